@@ -29,6 +29,7 @@ structure St where
   /-- options kept by the observation registered last; whether it is still registered -/
   obs : Option (Options View) := none
   obsLive : Bool := false
+  obsEtag : List UInt8 := []
 
 def St.msg (s : St) : Msg := ⟨s.mem, s.cur.opts, s.cur.vb, s.cur.orig⟩
 def St.put (s : St) (r : Msg) : St := { s with mem := r.mem, cur := ⟨r.opts, r.vb, r.orig⟩ }
@@ -109,7 +110,7 @@ def step (s : St) (ws : List String) : Out :=
       let (m1, kept) ← observeRequest g m o
       match kept with
       | none => pure ({ s with mem := m1 }, s!"ret other {vbLen s}")
-      | some c => pure ({ s with mem := m1, obs := some c, obsLive := true }, s!"ret ok {vbLen s}"))
+      | some c => pure ({ s with mem := m1, obs := some c, obsLive := true, obsEtag := [] }, s!"ret ok {vbLen s}"))
   | ["obsopts"] =>
     if !s.pool then ("bad-op", some s) else
     match s.obs with
@@ -124,8 +125,32 @@ def step (s : St) (ws : List String) : Out :=
     if !s.pool then ("bad-op", some s) else
     match s.obs, s.obsLive with
     | some c, true =>
-      runM s (do let (m1, its) ← cancelRequestItems g gb m c; pure ({ s with mem := m1, obsLive := false }, s!"ret ok {fmtItems its}"))
+      runM s (do let (m1, its) ← cancelRequestItems g gb m c s.obsEtag; pure ({ s with mem := m1, obsLive := false }, s!"ret ok {fmtItems its}"))
     | _, _ => fin s "ret notfound 0"
+  | ["notify", e] =>
+    if !s.pool then ("bad-op", some s) else
+    match parseHex? e with
+    | none => ("bad-op", some s)
+    | some etag =>
+      if s.obsLive then fin (if etag.isEmpty then s else { s with obsEtag := etag }) s!"ret ok {vbLen s}"
+      else fin s "ret notfound 0"
+  | "build" :: kind :: path :: cf :: body :: _spare :: _n :: items =>
+    if !s.pool then ("bad-op", some s) else
+    match parseHex? path, cf.toNat?, parseItems items with
+    | some p, some cf, some inp =>
+      let k : Option ReqKind := match kind with
+        | "get" => some .get | "post" => some .post | "put" => some .put | "delete" => some .delete
+        | "observe" => some .observe | _ => none
+      match k with
+      | none => ("bad-op", some s)
+      | some k =>
+        let tail := s!"# {fmtItems (inp ++ [(17, [50])])} # {fmtItems inp}"
+        runM s (do
+          let (m1, r) ← buildRequest g gb m k p cf (body == "1") inp
+          match r with
+          | none => pure ({ s with mem := m1 }, s!"ret invalid 0 {tail}")
+          | some its => pure ({ s with mem := m1 }, s!"ret ok {fmtItems its} {tail}"))
+    | _, _, _ => ("bad-op", some s)
   | ["recycle"] =>
     if !s.pool then ("bad-op", some s) else
     runM s (do let r ← s.msg.reset; let s' := s.put r; pure (s', s!"ret ok {vbLen s'}"))
@@ -309,6 +334,9 @@ def parseOp (ws : List String) : Option Op :=
   | ["obsreq"] => some .obsReq
   | ["obscancel"] => some .obsCancel
   | ["recycle"] => some .recycle
+  | ["notify", e] => do pure (.notify (← parseHex? e))
+  | "build" :: kind :: path :: cf :: body :: spare :: _ :: items => do
+    pure (.build kind (← parseHex? path) (← cf.toNat?) (body == "1") (← spare.toNat?) (← parseItems items))
   | ["clone"] => some .clone
   | ["swap"] => some .swap
   | ["reset"] => some .reset
